@@ -206,11 +206,21 @@ def closers_only(src, out):
         else:
             i -= 1
     # possible insertions at out position j: '}' , ']' , or '\end{name}' with \begin{name} earlier in out
+    # an inserted \\end{NAME} is accepted when \\begin{NAME} occurs earlier in the output; NAME is whatever
+    # stands between "\\begin{" and any later "}" (it may contain braces or a backslash)
     ends = {}
-    for mt in re.finditer(r'\\end\{([^{}]*)\}', out):
-        name = mt.group(1)
-        if ('\\begin{%s}' % name) in out[:mt.start()]:
-            ends[mt.start()] = mt.end()
+    begins = [mt.end() for mt in re.finditer(r'\\begin\{', out)]
+    for mt in re.finditer(r'\\end\{', out):
+        j = mt.start()
+        for b in begins:
+            if b > j:
+                break
+            k = out.find('}', b)
+            while k != -1 and k < j + 1:
+                name = out[b:k]
+                if out.startswith(name + '}', mt.end()):
+                    ends.setdefault(j, set()).add(mt.end() + len(name) + 1)
+                k = out.find('}', k + 1)
     reach = {(0, 0)}
     seen = set()
     stack = [(0, 0)]
@@ -228,8 +238,8 @@ def closers_only(src, out):
             cand.append((i + 1, j))
         if j < m and out[j] in '}]':
             cand.append((i, j + 1))
-        if j in ends:
-            cand.append((i, ends[j]))
+        for e in ends.get(j, ()):
+            cand.append((i, e))
         for c in cand:
             if c not in seen:
                 stack.append(c)
